@@ -15,6 +15,7 @@ there the discipline is proved (Lemmas/EventDisc, EventKeys, MptRound) and only 
 -/
 import Verif.Lemmas.MptStoreTrie
 import Verif.Lemmas.MptRound
+import Verif.Lemmas.MergeRound
 namespace Verif.Props.C04
 open Verif.Mpt Verif.MptStore Verif.MptStore.Collector
 
@@ -156,6 +157,42 @@ theorem C04_complete (H : Bytes → Bytes) (P0 : PStore) (t0 t : Node) (b0 : Tri
     · exact hsub b hb
     · exact Or.inr hb
   rw [hU a b haU hbU hk]
+
+/-- **Saved state is complete — a round with one merged transaction.**  The block trie `b0` (fresh collector) executes
+    the round `esP` from `t0` to `t1`; a child opened on `t1` (fresh collector `c0`) executes the round `esC` to `t2`;
+    the block trie replays the child's pending changes in the order `orderChanges` computes, then its deletes
+    (`mergeChanges`), and saves.  The event discipline is PROVED for all of it (own operations: Lemmas/EventDisc;
+    the replay: Lemmas/Collector2, MergeCalls).  Remaining hypotheses: canonical resolvable start tree, key injectivity
+    on the references involved, and `GoodOrder` of the replay order (what `orderChanges` is for: no change replaces a
+    key after a change (re)created it; proved to be a permutation, `GoodOrder` itself is not yet derived). -/
+theorem C04_complete_one_merge (H : Bytes → Bytes) (P0 : PStore) (t0 t1 t2 : Node) (b0 c0 : Trie) (v : Nat)
+    (esP esC : List Event)
+    (hfresh : b0.cc.changes = [] ∧ b0.cc.deletes = []) (hfreshC : c0.cc.changes = [] ∧ c0.cc.deletes = [])
+    (h0 : Resolves H (Map.get P0.nodes) t0 []) (hw : WF t0)
+    (hP : RoundEvents v t0 esP t1) (hC : RoundEvents v t1 esC t2)
+    (hgood : GoodOrder (Ref.key H) (orderChanges H (c0.applyEvents H esC).cc.getChanges))
+    (hU : KeyInjOn H (fun r => r ∈ refs t0 [] ∨ r ∈ eventRefs esP ∨ r ∈ eventRefs esC)) :
+    Resolves H (Map.get (P0.applyAll (saveStream H (b0.applyEvents H
+      (esP ++ mergeEvents (orderChanges H (c0.applyEvents H esC).cc.getChanges) (c0.applyEvents H esC).cc.getDeletes)))).nodes)
+      t2 [] := by
+  obtain ⟨hd, hc, hsubE⟩ := one_merge_discipline H hP hC hw c0 hfreshC _ (orderChanges_perm H _) hgood hU
+  obtain ⟨_, hcrP, hw1⟩ := round_ok hP hw (fun r => r ∈ refs t0 []) (fun _ h => h)
+  obtain ⟨_, hcrC, _⟩ := round_ok hC hw1 (fun r => r ∈ refs t1 []) (fun _ h => h)
+  have hin : ∀ r, (r ∈ refs t0 [] ∨ r ∈ refs t2 [] ∨ r ∈ eventRefs (esP ++ mergeEvents (orderChanges H
+      (c0.applyEvents H esC).cc.getChanges) (c0.applyEvents H esC).cc.getDeletes)) →
+      (r ∈ refs t0 [] ∨ r ∈ eventRefs esP ∨ r ∈ eventRefs esC) := by
+    intro r hr
+    rcases hr with hr | hr | hr
+    · exact Or.inl hr
+    · rcases liveRunR_sub esC _ r (hcrC r hr) with h | h
+      · rcases liveRunR_sub esP _ r (hcrP r h) with h | h
+        · exact Or.inl h
+        · exact Or.inr (Or.inl h)
+      · exact Or.inr (Or.inr h)
+    · exact Or.inr (hsubE r hr)
+  apply C04_complete_partial H P0 t0 t2 b0 _ hfresh h0 hd hc
+  intro a b ha hb hk
+  rw [hU a b (hin a ha) (hin b hb) hk]
 
 /-- non-vacuity of `C04_complete`: a round that inserts a key and overwrites it, saved into an empty store -/
 example : ∃ t, RoundEvents 1 .empty ((insertE 1 [65] .empty [] [3]).2 ++ ((insertE 1 [66] (.leaf 1 [3] [65]) [] [3]).2 ++ [])) t ∧
